@@ -57,4 +57,28 @@ theorem fitPredict_out_of_sample (st : Strategy) (sp : Int) (wl : Option Int) (y
   simp only [hins, hoos, List.isEmpty_nil, ↓reduceIte, predictOut, hwin, bind, Except.bind, pure, Except.pure]
   cases predictLastWindow st sp.toNat w (window (asFn y origin) (origin + (y.length : Int) - 1) w) fh <;> rfl
 
+/-- an in-sample step whose moved cutoff lies inside the series: the window is the (at most `wl`) observations up to it -/
+theorem oneStepAhead_eq (st : Strategy) (sp wl : Nat) (y : List Val) (origin : Int) (q : Int)
+    (h0 : 0 ≤ q) (h1 : q ≤ (y.length : Int) - 1) :
+    oneStepAhead st sp wl y origin q =
+      match predictLastWindow st sp wl (window (asFn y origin) (origin + q) (min wl (q.toNat + 1))) [1] with
+      | .error e => .error e
+      | .ok v => .ok (origin + q + 1, v.headD none) := by
+  unfold oneStepAhead
+  have hq : ¬ (q < 0) := by omega
+  simp only [hq, ↓reduceIte]
+  rw [lastWindow_eq_window y origin wl (origin + q) (by omega) (by omega)]
+  have : (origin + q - origin + 1).toNat = q.toNat + 1 := by omega
+  rw [this]
+  generalize predictLastWindow st sp wl (window (asFn y origin) (origin + q) (min wl (q.toNat + 1))) [1] = r
+  cases r <;> rfl
+
+/-- an in-sample step at or before the first observation: nothing has been observed, the forecast is NaN
+(and is labelled with the first time point, because the cutoff stays just before the series) -/
+theorem oneStepAhead_before_start (st : Strategy) (sp wl : Nat) (y : List Val) (origin : Int) (q : Int) (h0 : q < 0) :
+    oneStepAhead st sp wl y origin q = .ok (origin, none) := by
+  unfold oneStepAhead
+  simp only [h0, ↓reduceIte, lastWindow_before_start]
+  simp [predictLastWindow, allNaN]
+
 end SkVerif.Lem.Naive
